@@ -176,6 +176,10 @@ PROGRESS = [
      [("var:ret&enum:LZMA_STREAM_END", "T")],
      "whenever a Block was finished the worker of the next Block is told to publish partial output -- also when the "
      "caller's output buffer is full: otherwise a stalled worker is never noticed and lzma_code() waits forever"),
+    ("worker-wait", "worker_decoder", ("call2", "mythread_cond_wait"), "store:partial_update",
+     [("var:in_filled&field:in_pos", "T"), ("var:partial_update&enum:PARTIAL_START", "T")],
+     "a worker without new input waits -- except once, right after partial output was enabled (PARTIAL_START): that run "
+     "publishes in_pos/out_pos, which the main thread needs to notice that the last worker has consumed all its input"),
     ("publish-progress", "worker_decoder", ("store", "decoder_in_pos"), "slot:code",
      [("var:ret&enum:LZMA_OK", "T"), ("var:partial_update&enum:PARTIAL_DISABLED", "T")],
      "with partial updates enabled the worker publishes in_pos/out_pos after every chunk, also when the chunk produced "
@@ -192,13 +196,24 @@ def check_progress(ck, prog):
         ck.saw_function(f)
         refb = None
         for b, i, e in f.iter_elems():
+            if ref.startswith("store:"):
+                e_ = ex.deref(e)
+                if e_.get("k") == "asg" and any(
+                        ex.strip(l) is not None and ex.strip(l).get("k") == "var" and ex.strip(l)["n"] == ref[6:]
+                        for (l, r, op, node) in ex.writes(e)):
+                    refb = b.id
+                continue
             for c in ex.calls(e, into_refs=False):
                 if c.get("fn") == ref or (ref.startswith("slot:") and guard._is_slot_call(c, ref[5:])):
                     refb = b.id
         sites = []
+        doms_ = cfg.dominators(f)
         for b, i, e in f.iter_elems():
-            if what[0] == "call":
+            if what[0] in ("call", "call2"):
                 if any(c.get("fn") == what[1] for c in ex.calls(e, into_refs=False)):
+                    # call2: only the call sites that come after the reference point
+                    if what[0] == "call2" and not (refb is not None and (refb in doms_.get(b.id, ()) or refb == b.id)):
+                        continue
                     sites.append((b.id, e))
             else:
                 for (l, r, op, node) in ex.writes(e):
